@@ -102,8 +102,9 @@ def run(ctx):
                 try:
                     V, P, W = world(h, names + ["e"])
                     rows = [[(truthy[(ci + i + j) % len(truthy)] if cell[i * size + j] else (0 if (i + j) % 2 else None)) for j in range(size)] for i in range(size)]
-                    mat = Seq([Seq(r, "list") for r in rows], "list")
-                    vs = Seq([V[x] for x in names], "list")
+                    kind = "tuple" if ci % 2 else "list"     # rows / side array given as tuples are as good as lists
+                    mat = Seq([Seq(r, kind) for r in rows], kind)
+                    vs = Seq([V[x] for x in names], kind)
                     pre = snapshot(V)
                     out = h.call(fmat, mat, vs, h.cls(lt)) if lt != "DirectedEdge" else h.call(fmat, mat, vs)
                 except Unknown as u:
